@@ -310,6 +310,34 @@ func runCurve() {
 	fmt.Printf("events=%d\n", tr.Count())
 }
 
+// craftResult returns a scalar and an input point whose X25519 value is the given u (which must be the u-coordinate of
+// a point of the prime-order subgroup): the input is u([k^-1] R) with k the clamped scalar.
+func craftResult(r *hx.Rng, rU *big.Int) (sc, uin []byte, ok bool) {
+	// Edwards y of the target: (u - 1)/(u + 1)
+	den := refmodel.Fadd(rU, big.NewInt(1))
+	if den.Sign() == 0 {
+		return nil, nil, false
+	}
+	y := refmodel.Fmul(refmodel.Fsub(rU, big.NewInt(1)), refmodel.Finv(den))
+	yb := refmodel.LE32(y)
+	di := refmodel.Decode(yb[:])
+	if !di.OK || !di.Pt.Mul(refmodel.L).IsIdentity() || di.Pt.IsIdentity() {
+		return nil, nil, false
+	}
+	sc = r.Bytes(32)
+	k := new(big.Int).Mod(refmodel.Clamp(sc), refmodel.L)
+	if k.Sign() == 0 {
+		return nil, nil, false
+	}
+	kinv := new(big.Int).ModInverse(k, refmodel.L)
+	_, yq := di.Pt.Mul(kinv).Affine()
+	uin = refmodel.LE(refmodel.EdYToMontU(yq), 32)
+	if exp := refmodel.X25519(sc, uin); refmodel.FromLE(exp[:]).Cmp(rU) != 0 {
+		panic("structured result construction")
+	}
+	return sc, uin, true
+}
+
 func x25519Events(tr *hx.Trace, r *hx.Rng, thorough bool) {
 	nine := []byte{9, 0, 0, 0, 0, 0, 0, 0, 0, 0, 0, 0, 0, 0, 0, 0, 0, 0, 0, 0, 0, 0, 0, 0, 0, 0, 0, 0, 0, 0, 0, 0}
 	cfg := *fCfg
@@ -338,6 +366,14 @@ func x25519Events(tr *hx.Trace, r *hx.Rng, thorough bool) {
 				guard(tr, "ScalarBaseMult", func() { x25519.ScalarBaseMult(&sb, &in) })
 				guard(tr, "ScalarMult", func() { x25519.ScalarMult(&sm, &in, &base) })
 				fast = bytes.Equal(g, got) && bytes.Equal(sb[:], got) && bytes.Equal(sm[:], got)
+			} else {
+				// the array API on the same generic point: the RFC 7748 value (all-zero for low-order points), canonical
+				var sm, in, pt [32]byte
+				copy(in[:], scalar)
+				copy(pt[:], point)
+				if !guard(tr, "ScalarMult", func() { x25519.ScalarMult(&sm, &in, &pt) }) {
+					fast = bytes.Equal(sm[:], exp)
+				}
 			}
 		}
 		if got == nil {
@@ -410,7 +446,6 @@ func x25519Events(tr *hx.Trace, r *hx.Rng, thorough bool) {
 	// zero (u = c 2^192, c 2^128, c 2^64, c < 2^64, ...): a zero test that looks at part of the output only
 	// would report a low-order point.  For a target r on the curve and in the prime-order subgroup the input
 	// is u([k^-1] R) with k the clamped scalar.
-	targets := 0
 	for _, shift := range []uint{192, 128, 64, 0, 200, 248} {
 		found := 0
 		for c := int64(1); c < 4000 && found < 2; c++ {
@@ -418,34 +453,20 @@ func x25519Events(tr *hx.Trace, r *hx.Rng, thorough bool) {
 			if rU.Cmp(refmodel.P) >= 0 {
 				break
 			}
-			// Edwards y of the target: (u - 1)/(u + 1)
-			den := refmodel.Fadd(rU, big.NewInt(1))
-			if den.Sign() == 0 {
+			sc, uin, ok := craftResult(r, rU)
+			if !ok {
 				continue
-			}
-			y := refmodel.Fmul(refmodel.Fsub(rU, big.NewInt(1)), refmodel.Finv(den))
-			yb := refmodel.LE32(y)
-			di := refmodel.Decode(yb[:])
-			if !di.OK || !di.Pt.Mul(refmodel.L).IsIdentity() || di.Pt.IsIdentity() {
-				continue
-			}
-			sc := r.Bytes(32)
-			k := new(big.Int).Mod(refmodel.Clamp(sc), refmodel.L)
-			if k.Sign() == 0 {
-				continue
-			}
-			kinv := new(big.Int).ModInverse(k, refmodel.L)
-			_, yq := di.Pt.Mul(kinv).Affine()
-			uin := refmodel.LE(refmodel.EdYToMontU(yq), 32)
-			if exp := refmodel.X25519(sc, uin); refmodel.FromLE(exp[:]).Cmp(rU) != 0 {
-				panic("structured result construction")
 			}
 			emit(sc, uin, fmt.Sprintf("result=c*2^%d", shift))
 			found++
-			targets++
 		}
 	}
-	_ = targets
+	// every result below 19 that is reachable (u and u + p are both 255-bit strings: the output must be the canonical one)
+	for c := int64(1); c < 19; c++ {
+		if sc, uin, ok := craftResult(r, big.NewInt(c)); ok {
+			emit(sc, uin, fmt.Sprintf("result=%d", c))
+		}
+	}
 	// sub-slices of the exported base-point slice (same first element, wrong length) must be length errors
 	for _, n := range []int{0, 1, 5, 31} {
 		var got []byte
